@@ -63,16 +63,18 @@ SegContent(id) == IF ShareSeg THEN T ELSE sobj[id].own
 NoObj == [cached |-> FALSE, own |-> {}]
 NoBuf == [h |-> {}, d |-> {}]       \* docInfo of the memtable; data of the sub-index streams
 
-IdleFl == [pc |-> "idle", q |-> <<>>, mid |-> 0, sid |-> 0, k |-> 0, buf |-> NoBuf, who |-> "none", snap |-> {}]
+IdleFl == [pc |-> "idle", q |-> <<>>, mt |-> [mid |-> 0, docs |-> {}, own |-> {}, frozen |-> FALSE, n |-> 0], mid |-> 0, sid |-> 0, k |-> 0, buf |-> NoBuf, who |-> "none", snap |-> {}]
+Workers == {"fg", "bg"}
+IdleFls == [w \in Workers |-> IdleFl]
 IdleCo == [pc |-> "idle", tgt |-> <<>>, i |-> 0, sid |-> 0, k |-> 0, buf |-> NoBuf]
 IdleSe == [pc |-> "idle", res |-> {}, todo |-> {}]
-UsedMids == {mq[k].mid : k \in DOMAIN mq} \cup {fl.mid}
-NewMid == CHOOSE n \in 1..(Len(mq) + 2) : n \notin UsedMids /\ \A m \in 1..(Len(mq) + 2) : m \notin UsedMids => n <= m
+UsedMids == {mq[k].mid : k \in DOMAIN mq} \cup {fl[w].mid : w \in Workers} \cup UNION {{fl[w].q[k].mid : k \in DOMAIN fl[w].q} : w \in Workers}
+NewMid == CHOOSE n \in 1..(Cardinality(UsedMids) + 1) : n \notin UsedMids /\ \A m \in 1..(Cardinality(UsedMids) + 1) : m \notin UsedMids => n <= m
 FreshMt(mid) == [mid |-> mid, docs |-> {}, own |-> {}, frozen |-> FALSE, n |-> 0]
 
 Init == /\ st = "down" /\ lock = FALSE /\ T = {} /\ mq = <<>> /\ segs = <<>> /\ sobj = [i \in 1..MaxSeg |-> NoObj]
         /\ disk = [i \in 1..MaxSeg |-> NoFiles]
-        /\ ctr = 0 /\ fl = IdleFl /\ co = IdleCo /\ se = IdleSe
+        /\ ctr = 0 /\ fl = IdleFls /\ co = IdleCo /\ se = IdleSe
         /\ flushReq = FALSE /\ compactReq = FALSE
         /\ expect = {} /\ durable = {} /\ ever = {} /\ lost = {} /\ crashes = 0 /\ removed = {} /\ leaked = {}
 
@@ -90,11 +92,11 @@ Open == /\ st = "down" /\ lock = FALSE
              segs' = [k \in 1..Cardinality(ids) |-> SortedIds(ids)[k]]
         /\ sobj' = [i \in 1..MaxSeg |-> NoObj]
         /\ ctr' = IF \E i \in 1..MaxSeg : Present(i) THEN CHOOSE i \in 1..MaxSeg : Present(i) /\ \A j \in 1..MaxSeg : Present(j) => j <= i ELSE 0
-        /\ fl' = IdleFl /\ co' = IdleCo /\ se' = IdleSe /\ flushReq' = FALSE /\ compactReq' = FALSE
+        /\ fl' = IdleFls /\ co' = IdleCo /\ se' = IdleSe /\ flushReq' = FALSE /\ compactReq' = FALSE
         /\ expect' = durable
         /\ UNCHANGED <<removed, leaked, disk, durable, ever, lost, crashes>>
 
-Quiet == fl.who # "fg" /\ se.pc = "idle"   \* no foreground call in progress (sequential client)
+Quiet == fl["fg"].pc = "idle" /\ se.pc = "idle"   \* no foreground call in progress (sequential client)
 RotateSeq(q) == Append([q EXCEPT ![Len(q)].frozen = TRUE], FreshMt(NewMid))
 
 Add(d) == /\ st = "open" /\ Quiet /\ d \notin ever
@@ -110,7 +112,7 @@ Rotate == /\ st = "open" /\ Quiet /\ Last(mq).n > 0 /\ mq' = RotateSeq(mq)      
 
 \* Remove reaches the active memtable only; with ShareMem a document that is no longer in the shared index cannot be removed
 CanRemove(d) == d \in Last(mq).docs /\ (ShareMem => d \in T)
-InFlight(d) == \/ (fl.pc \in {"written", "close"} /\ d \in fl.buf.d)
+InFlight(d) == \/ (\E w \in Workers : fl[w].pc \in {"written", "close"} /\ d \in fl[w].buf.d)
                \/ (co.pc \in {"written", "close"} /\ d \in co.buf.d)
 Remove(d) == /\ st = "open" /\ Quiet /\ CanRemove(d)
              /\ mq' = [mq EXCEPT ![Len(mq)].docs = @ \ {d}, ![Len(mq)].own = @ \ {d}]
@@ -146,62 +148,63 @@ SearchSeg(id) ==
 SearchRet == /\ se.pc = "segs" /\ se.todo = {} /\ se' = IdleSe
              /\ UNCHANGED <<removed, leaked, sobj, st, lock, T, mq, segs, disk, ctr, fl, co, flushReq, compactReq, expect, durable, ever, lost, crashes>>
 
-\* ---- flusher: foreground Flush(), background worker, or the closing flush
+\* ---- flushers: the caller of Flush() ("fg") and the background worker ("bg"; it also runs the closing flush) can be inside
+\* flushMemtables at the same time (both then flush the same frozen memtables: duplicate segments, merged by id at search time)
 Frozen(q) == SelectSeq(q, LAMBDA m : m.frozen)
 MaybeRotate(who) == IF FlushActive /\ who \in {"fg", "close"} /\ Last(mq).n > 0 THEN RotateSeq(mq) ELSE mq
+Other(w) == IF w = "fg" THEN "bg" ELSE "fg"
 
-FlushStart(who) ==
-    /\ st = "open" /\ fl.pc = "idle"
-    /\ \/ who = "fg" /\ se.pc = "idle"
-       \/ who = "bg" /\ flushReq
-    /\ LET q1 == MaybeRotate(who) IN
+\* listFrozen: the flusher keeps the memtable objects it picked (they stay valid after another flusher dropped them from the queue)
+FlushStart(w) ==
+    /\ st = "open" /\ fl[w].pc = "idle"
+    /\ \/ w = "fg" /\ se.pc = "idle"
+       \/ w = "bg" /\ flushReq
+    /\ LET q1 == MaybeRotate(w) IN
        /\ mq' = q1
-       /\ fl' = [IdleFl EXCEPT !.pc = "next", !.q = [k \in 1..Len(Frozen(q1)) |-> Frozen(q1)[k].mid], !.who = who, !.snap = expect]
-    /\ flushReq' = IF who = "bg" THEN FALSE ELSE flushReq
+       /\ fl' = [fl EXCEPT ![w] = [IdleFl EXCEPT !.pc = "next", !.q = Frozen(q1), !.who = w, !.snap = expect]]
+    /\ flushReq' = IF w = "bg" THEN FALSE ELSE flushReq
     /\ UNCHANGED <<removed, leaked, sobj, st, lock, T, segs, disk, ctr, co, se, compactReq, expect, durable, ever, lost, crashes>>
 
-MtByMid(mid) == CHOOSE k \in DOMAIN mq : mq[k].mid = mid
-
 \* end of the flusher's loop: Flush() / Close() return, what they acknowledged is durable
-FlushFinish ==
-    /\ fl.pc = "next" /\ fl.q = <<>>
-    /\ fl' = IdleFl
-    /\ durable' = IF fl.who \in {"fg", "close"} THEN durable \cup fl.snap ELSE durable
-    /\ IF fl.who = "close" THEN st' = "down" /\ lock' = FALSE ELSE UNCHANGED <<st, lock>>
+FlushFinish(w) ==
+    /\ fl[w].pc = "next" /\ fl[w].q = <<>>
+    /\ fl' = [fl EXCEPT ![w] = IdleFl]
+    /\ durable' = IF fl[w].who \in {"fg", "close"} THEN durable \cup fl[w].snap ELSE durable
+    /\ IF fl[w].who = "close" THEN st' = "down" /\ lock' = FALSE ELSE UNCHANGED <<st, lock>>
     /\ UNCHANGED <<removed, leaked, sobj, T, mq, segs, disk, ctr, co, se, flushReq, compactReq, expect, ever, lost, crashes>>
 
 \* nextSegmentID
-FlushNextId ==
-    /\ fl.pc = "next" /\ fl.q # <<>> /\ ctr < MaxSeg
+FlushNextId(w) ==
+    /\ fl[w].pc = "next" /\ fl[w].q # <<>> /\ ctr < MaxSeg
     /\ ctr' = ctr + 1
-    /\ fl' = [fl EXCEPT !.pc = "create", !.mid = Head(fl.q), !.q = Tail(fl.q), !.sid = ctr + 1, !.k = 1]
+    /\ fl' = [fl EXCEPT ![w] = [@ EXCEPT !.pc = "create", !.mt = Head(fl[w].q), !.mid = Head(fl[w].q).mid, !.q = Tail(fl[w].q), !.sid = ctr + 1, !.k = 1]]
     /\ UNCHANGED <<removed, leaked, sobj, st, lock, T, mq, segs, disk, co, se, flushReq, compactReq, expect, durable, ever, lost, crashes>>
 
 \* os.Create of the next component file; after the last one WriteTo fills the gzip buffers
-FlushCreate ==
-    /\ fl.pc = "create"
-    /\ disk' = [disk EXCEPT ![fl.sid][CreateOrder[fl.k]] = Empty]
-    /\ fl' = IF fl.k < Len(CreateOrder) THEN [fl EXCEPT !.k = @ + 1] ELSE [fl EXCEPT !.pc = "towrite"]
+FlushCreate(w) ==
+    /\ fl[w].pc = "create"
+    /\ disk' = [disk EXCEPT ![fl[w].sid][CreateOrder[fl[w].k]] = Empty]
+    /\ fl' = [fl EXCEPT ![w] = IF @.k < Len(CreateOrder) THEN [@ EXCEPT !.k = @ + 1] ELSE [@ EXCEPT !.pc = "towrite"]]
     /\ UNCHANGED <<removed, leaked, sobj, st, lock, T, mq, segs, ctr, co, se, flushReq, compactReq, expect, durable, ever, lost, crashes>>
-FlushWrite ==
-    /\ fl.pc = "towrite"
-    /\ LET m == mq[MtByMid(fl.mid)] IN
-       fl' = [fl EXCEPT !.pc = "written", !.k = 1, !.buf = [h |-> m.docs, d |-> MtContent(m)]]
+FlushWrite(w) ==
+    /\ fl[w].pc = "towrite"
+    /\ fl' = [fl EXCEPT ![w] = [@ EXCEPT !.pc = "written", !.k = 1, !.buf = [h |-> fl[w].mt.docs, d |-> MtContent(fl[w].mt)]]]
     /\ UNCHANGED <<removed, leaked, sobj, st, lock, T, mq, segs, disk, ctr, co, se, flushReq, compactReq, expect, durable, ever, lost, crashes>>
 \* gzip Close of the next component: its file is complete
-FlushClose ==
-    /\ fl.pc \in {"written", "close"}
-    /\ LET c == CloseOrder[fl.k] IN disk' = [disk EXCEPT ![fl.sid][c] = Full(IF c = "h" THEN fl.buf.h ELSE fl.buf.d)]
-    /\ fl' = IF fl.k < Len(CloseOrder) THEN [fl EXCEPT !.pc = "close", !.k = @ + 1] ELSE [fl EXCEPT !.pc = "closed"]
+FlushClose(w) ==
+    /\ fl[w].pc \in {"written", "close"}
+    /\ LET c == CloseOrder[fl[w].k] IN disk' = [disk EXCEPT ![fl[w].sid][c] = Full(IF c = "h" THEN fl[w].buf.h ELSE fl[w].buf.d)]
+    /\ fl' = [fl EXCEPT ![w] = IF @.k < Len(CloseOrder) THEN [@ EXCEPT !.pc = "close", !.k = @ + 1] ELSE [@ EXCEPT !.pc = "closed"]]
     /\ UNCHANGED <<removed, leaked, sobj, st, lock, T, mq, segs, ctr, co, se, flushReq, compactReq, expect, durable, ever, lost, crashes>>
-FlushRegister == /\ fl.pc = "closed"
-                 /\ segs' = Append(segs, fl.sid) /\ sobj' = [sobj EXCEPT ![fl.sid] = NoObj]
-                 /\ fl' = [fl EXCEPT !.pc = "registered"]
-                 /\ UNCHANGED <<removed, leaked, st, lock, T, mq, disk, ctr, co, se, flushReq, compactReq, expect, durable, ever, lost, crashes>>
-FlushDrop == /\ fl.pc = "registered"
-             /\ mq' = SelectSeq(mq, LAMBDA m : m.mid # fl.mid)
-             /\ fl' = [fl EXCEPT !.pc = "next"]
-             /\ UNCHANGED <<removed, leaked, sobj, st, lock, T, segs, disk, ctr, co, se, flushReq, compactReq, expect, durable, ever, lost, crashes>>
+FlushRegister(w) == /\ fl[w].pc = "closed"
+                    /\ segs' = Append(segs, fl[w].sid) /\ sobj' = [sobj EXCEPT ![fl[w].sid] = NoObj]
+                    /\ fl' = [fl EXCEPT ![w] = [@ EXCEPT !.pc = "registered"]]
+                    /\ UNCHANGED <<removed, leaked, st, lock, T, mq, disk, ctr, co, se, flushReq, compactReq, expect, durable, ever, lost, crashes>>
+\* memtableQueue.remove: a no-op when the other flusher has dropped it already
+FlushDrop(w) == /\ fl[w].pc = "registered"
+                /\ mq' = SelectSeq(mq, LAMBDA m : m.mid # fl[w].mid)
+                /\ fl' = [fl EXCEPT ![w] = [@ EXCEPT !.pc = "next"]]
+                /\ UNCHANGED <<removed, leaked, sobj, st, lock, T, segs, disk, ctr, co, se, flushReq, compactReq, expect, durable, ever, lost, crashes>>
 
 RequestBgFlush == /\ st = "open" /\ ~flushReq /\ Len(mq) > 1 /\ flushReq' = TRUE
                   /\ UNCHANGED <<removed, leaked, sobj, st, lock, T, mq, segs, disk, ctr, fl, co, se, compactReq, expect, durable, ever, lost, crashes>>
@@ -271,18 +274,18 @@ EvictAll == /\ st = "open" /\ Quiet
             /\ UNCHANGED <<removed, leaked, st, lock, T, mq, segs, disk, ctr, fl, co, se, flushReq, compactReq, expect, durable, ever, lost, crashes>>
 
 \* Close: mark closed, workers stop, the flush worker's closing branch flushes, the lock is released
-Close == /\ st = "open" /\ Quiet /\ fl.pc = "idle" /\ co.pc = "idle"
+Close == /\ st = "open" /\ Quiet /\ fl["bg"].pc = "idle" /\ co.pc = "idle"
          /\ st' = "closing"
          /\ LET q1 == MaybeRotate("close") IN
             /\ mq' = q1
-            /\ fl' = [IdleFl EXCEPT !.pc = "next", !.q = [k \in 1..Len(Frozen(q1)) |-> Frozen(q1)[k].mid], !.who = "close", !.snap = expect]
+            /\ fl' = [fl EXCEPT !["bg"] = [IdleFl EXCEPT !.pc = "next", !.q = Frozen(q1), !.who = "close", !.snap = expect]]
          /\ UNCHANGED <<removed, leaked, sobj, lock, T, segs, disk, ctr, co, se, flushReq, compactReq, expect, durable, ever, lost, crashes>>
 
 \* process death at any instant: memory is gone, the directory stays as it is; the file being written keeps an arbitrary prefix.
 \* The stale LOCK is removed by the operator before the next open.
 Crash == /\ st \in {"open", "closing"} /\ crashes < MaxCrash
          /\ st' = "down" /\ crashes' = crashes + 1 /\ lock' = FALSE
-         /\ T' = {} /\ mq' = <<>> /\ segs' = <<>> /\ sobj' = [i \in 1..MaxSeg |-> NoObj] /\ fl' = IdleFl /\ co' = IdleCo /\ se' = IdleSe
+         /\ T' = {} /\ mq' = <<>> /\ segs' = <<>> /\ sobj' = [i \in 1..MaxSeg |-> NoObj] /\ fl' = IdleFls /\ co' = IdleCo /\ se' = IdleSe
          /\ flushReq' = FALSE /\ compactReq' = FALSE /\ ctr' = 0
          /\ expect' = durable
          /\ \E part \in BOOLEAN :      \* files created but not yet closed hold nothing or a strict prefix
@@ -292,16 +295,16 @@ Crash == /\ st \in {"open", "closing"} /\ crashes < MaxCrash
 Next == \/ Open \/ Close \/ Crash \/ EvictAll \/ Rotate
         \/ \E d \in Docs : Add(d) \/ Remove(d)
         \/ SearchStart \/ (\E id \in 1..MaxSeg : SearchSeg(id)) \/ SearchRet
-        \/ FlushStart("fg") \/ FlushStart("bg") \/ RequestBgFlush
-        \/ FlushFinish \/ FlushNextId \/ FlushCreate \/ FlushWrite \/ FlushClose \/ FlushRegister \/ FlushDrop
+        \/ RequestBgFlush
+        \/ (\E w \in Workers : FlushStart(w) \/ FlushFinish(w) \/ FlushNextId(w) \/ FlushCreate(w) \/ FlushWrite(w) \/ FlushClose(w) \/ FlushRegister(w) \/ FlushDrop(w))
         \/ TriggerCompaction \/ CompactStart \/ CompactLoad \/ CompactNextId \/ CompactCreate \/ CompactWrite
         \/ CompactClose \/ CompactRegister \/ CompactUnlist \/ CompactDelFile \/ CompactEnd
 Spec == Init /\ [][Next]_vars
 
 \* ---- liveness of the workers (checked on a configuration without state constraint: no compaction, no crash)
-Fairness == /\ SF_vars(FlushStart("bg"))      \* (strong: the model has one flusher record, a foreground Flush in progress disables the background start)
-            /\ WF_vars(FlushFinish) /\ WF_vars(FlushNextId) /\ WF_vars(FlushCreate) /\ WF_vars(FlushWrite)
-            /\ WF_vars(FlushClose) /\ WF_vars(FlushRegister) /\ WF_vars(FlushDrop)
+Fairness == /\ WF_vars(FlushStart("bg"))
+            /\ \A w \in Workers : /\ WF_vars(FlushFinish(w)) /\ WF_vars(FlushNextId(w)) /\ WF_vars(FlushCreate(w)) /\ WF_vars(FlushWrite(w))
+                                  /\ WF_vars(FlushClose(w)) /\ WF_vars(FlushRegister(w)) /\ WF_vars(FlushDrop(w))
             /\ WF_vars(CompactStart) /\ WF_vars(CompactLoad) /\ WF_vars(CompactNextId) /\ WF_vars(CompactCreate) /\ WF_vars(CompactWrite)
             /\ WF_vars(CompactClose) /\ WF_vars(CompactRegister) /\ WF_vars(CompactUnlist) /\ WF_vars(CompactDelFile) /\ WF_vars(CompactEnd)
             /\ WF_vars(SearchRet) /\ \A id \in 1..MaxSeg : WF_vars(SearchSeg(id))
@@ -309,7 +312,7 @@ LiveSpec == Spec /\ Fairness
 \* a requested background flush is eventually taken up, a started flusher eventually finishes, a started search eventually returns
 \* (as long as the store stays open: Close takes the flusher over)
 FlushRequestServed == (flushReq /\ st = "open") ~> (~flushReq \/ st # "open")
-FlusherTerminates  == (fl.pc # "idle") ~> (fl.pc = "idle")
+FlusherTerminates  == \A w \in Workers : (fl[w].pc # "idle") ~> (fl[w].pc = "idle")
 SearchTerminates   == (se.pc # "idle") ~> (se.pc = "idle")
 
 \* ---- properties (evaluated when a search has collected everything)
